@@ -9,6 +9,7 @@ import (
 	"io"
 	"net/http"
 	"net/http/httptest"
+	"os"
 	"strings"
 	"sync"
 	"testing"
@@ -57,6 +58,13 @@ func TestVerifC02(t *testing.T) {
 	defer be.Close()
 	*host = strings.TrimPrefix(be.URL, "http://")
 	*forwardUserID, *stripCredentials = false, false
+	identityFlags := os.Getenv("VERIF_C02_IDENTITY") == "1"
+	if identityFlags {
+		// the same requests with --forward-user-id and --strip-credentials on: the two fields those flags are about aside, the
+		// request is forwarded as it came
+		*forwardUserID, *stripCredentials = true, true
+		defer func() { *forwardUserID, *stripCredentials = false, false }()
+	}
 	sessionLRU = nil
 	hp, err := hostProxy(context.Background(), *host, "", false, false)
 	if err != nil {
@@ -201,7 +209,7 @@ func TestVerifC02(t *testing.T) {
 	mu.Lock()
 	defer mu.Unlock()
 	for i, c := range reqs {
-		out.emit(map[string]interface{}{"kind": "c02", "req": c, "body_hash": verifHash(verifFiller(c.Case, c.BodyLen)), "seen": seen[c.Case], "client_status": results[i].Status, "client_err": results[i].Err})
+		out.emit(map[string]interface{}{"kind": "c02", "identity_flags": identityFlags, "req": c, "body_hash": verifHash(verifFiller(c.Case, c.BodyLen)), "seen": seen[c.Case], "client_status": results[i].Status, "client_err": results[i].Err})
 	}
 	if r := px.raceReports(); r != "" {
 		out.emit(map[string]interface{}{"kind": "race", "where": "proxy", "report": r})
